@@ -197,8 +197,13 @@ def scn_wire(params):
 
         hs = mserver.HandshakeServer(scen.SERVER_IP, sim.domain, pw, challenge=ch, userid=params["userid"], hook=hook)
         k.add_actor(hs.ip, hs)
-        c = k.spawn("cli0", "client", [sim.cli_bin, "-f"] + ([] if params["raw"] else ["-r"]) + ["-T", params["qtype"], "-P", pw, scen.SERVER_IP, sim.domain],
-                    ["10.53.1.1"], env={"IODINE_PASS": ""}, san_env=sim.env)
+        # -P wins over the IODINE_PASS environment variable, and nothing of the latter may leak into the response
+        envpw = bytes.fromhex(params.get("env_password_hex", "")).decode("latin1")
+        argv = [sim.cli_bin, "-f"] + ([] if params["raw"] else ["-r"]) + ["-T", params["qtype"]]
+        for pv in params.get("earlier_P_hex", []):
+            argv += ["-P", bytes.fromhex(pv)]          # an earlier -P that the last one overrides
+        argv += ["-P", pw, scen.SERVER_IP, sim.domain]
+        c = k.spawn("cli0", "client", argv, ["10.53.1.1"], env={"IODINE_PASS": envpw}, san_env=sim.env)
         sim.run_until(lambda: sim.client_in_tunnel(c) or not c.alive(), 60 * US)
         k.run(k.now + 3 * US)
         wit = {"seed": seed, "password": pw.hex(), "password_len": len(pw), "challenge": "0x%08x" % ch, "params": params}
@@ -250,6 +255,77 @@ def scn_wire(params):
         sim.close()
 
 
+def scn_srv(params):
+    """The real server's side of the challenge-response over successive sessions on the same slots: the response to the
+    *current* challenge is accepted (login reply), the response to an earlier challenge of that slot and one-bit
+    variations are refused (LNAK)."""
+    from simnet import mclient, proto, scen
+    from simnet.scen import US
+    seed = params["seed"]
+    rng = random.Random(params["rseed"])
+    pw = bytes.fromhex(params["password_hex"])
+    out = {"violations": [], "nontrivial": [], "stats": {"srv_logins_correct": 0, "srv_logins_wrong": 0, "srv_slot_reuses": 0},
+           "evaluations": 0, "sets": {}}
+    sim = scen.Sim("c19s-%d" % params["idx"], seed)
+    try:
+        k = sim.k
+        srv = sim.server(tun=params["tun"], password=pw)
+        if not srv.alive():
+            out["inconclusive"] = "server-died-at-start"
+            return out
+        wit = {"seed": seed, "password": pw.hex(), "params": params}
+        history = {}          # slot -> challenges handed out so far
+        n = 0
+        for rnd in range(params["rounds"]):
+            batch = []
+            for j in range(rng.randint(1, 3)):
+                n += 1
+                mc = mclient.ModelClient("10.53.5.%d" % (n % 250 + 1), (scen.SERVER_IP, 53), sim.domain, pw, random.Random(rng.getrandbits(32)),
+                                         qtype=rng.choice(list(proto.QTYPES.values())))
+                k.add_actor(mc.ip, mc)
+                p = mc.version()
+                if not p or p[:4] != b"VACK":
+                    continue
+                old = history.setdefault(mc.userid, [])
+                if old:
+                    out["stats"]["srv_slot_reuses"] += 1
+                # wrong responses first: an earlier challenge of this slot, neighbours of the challenge, one flipped bit
+                wrong = []
+                if old:
+                    wrong.append(("earlier-challenge", oracle(pw, old[-1])))
+                wrong.append(("challenge+1", oracle(pw, mc.challenge + 1)))
+                b = bytearray(oracle(pw, mc.challenge))
+                b[rng.randrange(16)] ^= 1 << rng.randrange(8)
+                wrong.append(("bitflip", bytes(b)))
+                for name, dg in wrong:
+                    if dg == oracle(pw, mc.challenge) or rng.random() < 0.4:
+                        continue
+                    r = mc.login(digest=dg)
+                    out["stats"]["srv_logins_wrong"] += 1
+                    out["evaluations"] += 1
+                    if mc.login_reply is not None:
+                        out["violations"].append(("C19:server:wrong-response-accepted", "the server accepted a login response computed for %s (slot %d, challenge 0x%08x)"
+                                                  % (name, mc.userid, mc.challenge), wit))
+                        mc.login_reply = None
+                r = mc.login()
+                out["stats"]["srv_logins_correct"] += 1
+                out["evaluations"] += 1
+                if mc.login_reply is None:
+                    out["violations"].append(("C19:server:correct-response-rejected", "the server answered %r to the documented response for slot %d, challenge 0x%08x (%d sessions used that slot before)"
+                                              % (r, mc.userid, mc.challenge, len(old)), wit))
+                old.append(mc.challenge)
+                batch.append(mc)
+            # everybody falls silent; the slots become reusable
+            k.run(k.now + rng.choice([61, 62, 70]) * US)
+        if out["stats"]["srv_slot_reuses"]:
+            out["nontrivial"].append(repr(("server-side", _lenbucket(len(pw)), params["tun"].split("/")[1], min(out["stats"]["srv_slot_reuses"], 5))))
+        if params["idx"] < 1:
+            out["sample"] = {"server_side": True, "password_len": len(pw), "stats": dict(out["stats"])}
+        return out
+    finally:
+        sim.close()
+
+
 def wire_params(ctx, rng):
     n = ctx.pick(320, 20000)
     plist = []
@@ -265,6 +341,8 @@ def wire_params(ctx, rng):
             pw = bytes(rng.randint(1, 255) for _ in range(ln))
         plist.append({"idx": i, "seed": ctx.seed * 100000 + i, "password_hex": pw.hex(),
                       "challenge": rng.choice(BOUNDARY_SEEDS + [rng.getrandbits(32)] * 6), "userid": rng.choice([0, 3, 15]),
+                      "env_password_hex": (bytes(rng.randint(33, 126) for _ in range(rng.choice([8, 20, 32, 40]))).hex() if rng.random() < 0.3 else ""),
+                      "earlier_P_hex": ([bytes(rng.randint(33, 126) for _ in range(rng.choice([12, 32]))).hex()] if rng.random() < 0.15 else []),
                       "raw": i % 2 == 0, "drop_raw": rng.choice([0, 0, 1, 2, 3]), "reply": rng.choice(["good", "good", "dns-hash", "plus1", "bitflip"]), "flip": rng.randrange(128),
                       "qtype": rng.choice(["NULL", "TXT", "CNAME", "MX"])})
     return plist
@@ -327,6 +405,11 @@ def run(ctx):
         results = unitrun.run_sharded(res, "C19", drv, sh, lambda i: [], input_for=input_for, jobs=ctx.jobs)
         if not ctx.replay:
             simrun.run_scenarios(wire_res, b, scn_wire, wire_params(ctx, random.Random(ctx.seed * 77 + 19)), jobs=ctx.jobs)
+            r2 = random.Random(ctx.seed * 79 + 19)
+            sp = [{"idx": i, "seed": ctx.seed * 100000 + 50000 + i, "rseed": r2.getrandbits(32), "rounds": r2.randint(3, 6),
+                   "password_hex": bytes(r2.randint(1, 255) for _ in range(r2.choice([1, 8, 31, 32]))).hex(),
+                   "tun": r2.choice(["10.9.0.1/24", "10.9.0.2/30", "10.9.0.1/29"])} for i in range(ctx.pick(48, 1500))]
+            simrun.run_scenarios(wire_res, b, scn_srv, sp, jobs=ctx.jobs)
         elif "params" in (ctx.replay.get("witness") or {}):
             simrun.run_scenarios(wire_res, b, scn_wire, [ctx.replay["witness"]["params"]], jobs=1)
 
